@@ -3,10 +3,11 @@
    explicit `Panic site` outcome and every loop runs on fuel; "no panic" and "terminates" are therefore
    statements about the model, tied to the code by the outcome-class comparison of the streams (which run
    the implementation under catch_unwind and a watchdog).
-   PARTIAL: exec_no_panic (for every checked file, well-formed match data and valid globals the
-   interpreters never reach a Panic site outside the known classes K1-K3) is not proved as one theorem;
-   proved are the pieces below; the parser part is in Props/C05parse.v. *)
-From TSG Require Import Model.Strict Model.Lazy Model.Stdlib Spec.StdlibDoc Model.Checker Proofs.Totality.
+   exec_no_panic is proved for BOTH interpreters (strict_exec_no_panic, lazy_exec_no_panic below: for every file
+   whose scan statements have their regex-table entries and whose shorthand bodies are capture-free, every match
+   data tree-sitter can produce for it, globals and a function library respecting graph-node references, no
+   Panic site is reached; the hypotheses exclude exactly the known classes K1 and K3, K2 being OutOfFuel). *)
+From TSG Require Import Model.Strict Model.Lazy Model.Stdlib Spec.StdlibDoc Model.Checker Proofs.Totality Proofs.NoPanicStrict Proofs.NoPanicLazy.
 From TSG Require Props.C13 Props.C06 Props.C18.
 
 (* the scan loop always advances (every executed arm consumed at least one character) and, with the fuel
@@ -45,6 +46,154 @@ Theorem known_K2_recursive_shorthand : forall t (fl : file) glob call a x vloc l
   find_shorthand a (f_shorthands fl) = Some {| sh_name := a; sh_var := x; sh_vloc := vloc; sh_attrs := [Attr a (EUnscoped x l0)]; sh_loc := sloc |} ->
   forall fuel le tgt value s p r, exec_attr t fl glob call fuel le tgt (Attr a value) s p <> Ok r.
 Proof. exact recursive_shorthand_diverges. Qed.
+
+(* STRICT INTERPRETER: no panic site is reachable.  `sok` is any predicate on syntax-node ids that the function
+   library may rely on (for the standard library: syn_ok t, the node is in the recorded tree).
+   - WellFormedFile regexes fl (boolean wf_file): every scan statement of every stanza, nested ones included,
+     has a compiled regex for each of its arms (arm_table regexes arms <> None: P_regex_table); no
+     attribute-shorthand body contains a capture expression (such a capture keeps the parser's placeholder
+     quantifier Zero and panics: known class K1).
+   - GoodMatches sok fl matches: for each stanza and each of its matches m: the full-match capture is bound
+     (otherwise: known class K3); every capture expression of the stanza has a quantifier other than Zero and,
+     when the quantifier is One, at least one node in m (cap_ok: what the checker writes and tree-sitter's
+     quantifier analysis guarantee; P_unreachable_quantifier, P_missing_capture); all nodes of m satisfy sok.
+   - GoodGlobals sok g0 supplied: graph-node references inside supplied global values (nested in lists and sets
+     too) are indices of g0, syntax-node references satisfy sok.
+   - GoodCall sok call: on arguments that are good for the graph, the library does not panic and returns a
+     value that is good for the graph it returns, which is not smaller.
+   The proof maintains: every graph-node reference in locals, scoped variables and the parameter buffer is an
+   index of the current graph (P_graph_index), frame depth (P_locals_empty) and parameter-buffer length
+   (P_params_underflow) are what each construct expects. *)
+Theorem strict_exec_no_panic : forall {rx : Type} (sok : N -> Prop) t fl cfg supplied budget (regexes : list rx) find call fuel matches g0,
+  WellFormedFile regexes fl -> GoodMatches sok fl matches -> GoodGlobals sok g0 supplied -> GoodCall sok call ->
+  forall x, run_strict t fl cfg supplied budget regexes find call fuel matches g0 <> Panic x.
+Proof. intros rx. exact (@exec_no_panic_strict rx). Qed.
+
+(* The hypothesis "a capture whose quantifier is One has a node in every match" (part of GoodMatches) is a statement
+   about tree-sitter that the implementation relies on and that is NOT always true: tree-sitter keeps at most three
+   captures per query step, so in `(module (expression_statement (identifier) @_a @_b @_c @d)) { print @d }` the
+   capture @d has quantifier One and is never bound; both interpreters then panic with "missing capture"
+   (execution.rs:328) -- FINDING (same root cause as K3, different site).  Without that hypothesis this is the ONLY
+   site either interpreter can reach: *)
+Theorem strict_exec_only_missing_capture : forall {rx : Type} (sok : N -> Prop) t fl cfg supplied budget (regexes : list rx) find call fuel matches g0,
+  WellFormedFile regexes fl -> GoodMatchesResolved sok fl matches -> GoodGlobals sok g0 supplied -> GoodCall sok call ->
+  forall x, run_strict t fl cfg supplied budget regexes find call fuel matches g0 = Panic x -> x = P_missing_capture.
+Proof. intros rx. exact (@exec_only_missing_capture_strict rx). Qed.
+Theorem lazy_exec_only_missing_capture : forall {rx : Type} (sok : N -> Prop) t fl cfg supplied budget (regexes : list rx) find call fuel matches g0,
+  WellFormedFile regexes fl -> GoodMatchesLazyResolved sok fl matches -> GoodGlobals sok g0 supplied -> GoodCall sok call ->
+  forall x, run_lazy t fl cfg supplied budget regexes find call fuel matches g0 = Panic x -> x = P_missing_capture.
+Proof. intros rx. exact (@exec_only_missing_capture_lazy rx). Qed.
+(* and it is reached exactly in that class: an evaluated capture expression with quantifier One and no node *)
+Theorem missing_capture_witness_strict : forall t fl glob call fuel le name fidx sidx l s p,
+  nodes_for_capture (le_match le) sidx = [] ->
+  eval t fl glob call (S fuel) le (ECapture name QOne fidx sidx l) s p = Panic P_missing_capture.
+Proof. exact missing_capture_panics_strict. Qed.
+Theorem missing_capture_witness_lazy : forall t fl glob call fuel le name fidx sidx l s p,
+  nodes_for_capture (ll_match le) fidx = [] ->
+  leval t fl glob call (S fuel) le (ECapture name QOne fidx sidx l) s p = Panic P_missing_capture.
+Proof. exact missing_capture_panics_lazy. Qed.
+
+(* the model of the program above (capture 3 is the dropped @d): the weaker hypotheses hold and both runs panic there *)
+Example c05_missing_capture_reachable :
+  let nd := {| tn_kind := [109]; tn_named := true; tn_error := false; tn_missing := false; tn_parent := None;
+               tn_children := []; tn_start := (0, 0); tn_end := (0, 1); tn_span := (0, 1) |} in
+  let t := {| t_src := [120]; t_nodes := [nd] |} in
+  let st := {| st_stmts := [SPrint [ECapture [100] QOne 3 3 (1, 8)] (1, 2)];
+               st_full_stanza_idx := 4; st_full_file_idx := 4; st_start := (0, 0) |} in
+  let fl := {| f_globals := []; f_inherited := []; f_shorthands := []; f_stanzas := [st] |} in
+  let m := [(0, [0]); (1, [0]); (2, [0]); (4, [0])] in
+  WellFormedFile (@nil unit) fl /\ GoodMatchesResolved (syn_ok t) fl [[m]] /\ GoodMatchesLazyResolved (syn_ok t) fl [(0, m)] /\
+  run_strict t fl config0 [[]] None (@nil unit) (fun _ _ => None) (stdlib_call (fun _ _ _ => None) t) 50 [[m]] [] = Panic P_missing_capture /\
+  run_lazy t fl config0 [[]] None (@nil unit) (fun _ _ => None) (stdlib_call (fun _ _ _ => None) t) 50 [(0, m)] [] = Panic P_missing_capture.
+Proof.
+  cbv zeta. split; [reflexivity|]. split; [|split; [|split]].
+  - split; [|exact I]. constructor; [|constructor]. split; [discriminate|]. split; [reflexivity|]. repeat constructor.
+  - constructor; [|constructor]. split; [discriminate|]. split; [reflexivity|]. repeat constructor.
+  - vm_compute. reflexivity.
+  - vm_compute. reflexivity.
+Qed.
+
+(* the hypothesis on the function library holds of the standard library, with sok = "the node is in the tree,
+   its span is inside the source and its parent is in the tree" *)
+Theorem stdlib_good_call : forall rx t, GoodCall (syn_ok t) (stdlib_call rx t).
+Proof. exact NoPanicStrict.stdlib_good_call. Qed.
+
+(* the hypotheses are satisfiable: a file with a global, a shorthand, a capture passed to the standard library, a
+   scan, a loop, nodes, an edge and attributes; on it the run succeeds *)
+Example c05_strict_nonvacuous :
+  let x := [120] in let y := [121] in let k := [107] in let c := [99] in let gname := [103] in let shn := [115] in let v := [118] in
+  let nd := {| tn_kind := [109]; tn_named := true; tn_error := false; tn_missing := false; tn_parent := None;
+               tn_children := []; tn_start := (0, 0); tn_end := (0, 2); tn_span := (0, 2) |} in
+  let t := {| t_src := [97; 98]; t_nodes := [nd] |} in
+  let cap := ECapture c QOne 0 0 (0, 0) in
+  let st := {| st_stmts := [SNode (VarU x (1, 2)) x (1, 0);
+                            SAttrNode (EUnscoped x (2, 0)) [Attr k (ECall Lit.node_type [cap]); Attr shn (EInt 7)] (2, 0);
+                            SScan (ECall Lit.source_text [cap]) [(0, [SPrint [ERegexCap 0] (3, 1)], (3, 1))] (3, 0);
+                            SFor y (4, 0) (EList [EUnscoped gname (4, 1); EUnscoped x (4, 2)])
+                                 [SEdge (EUnscoped x (5, 0)) (EUnscoped y (5, 1)) (5, 0)] (4, 0);
+                            SLet (VarS cap v (6, 0)) (ESet [EUnscoped x (6, 1)]) (6, 0)];
+               st_full_stanza_idx := 0; st_full_file_idx := 0; st_start := (0, 0) |} in
+  let sh := {| sh_name := shn; sh_var := v; sh_vloc := (7, 0); sh_attrs := [Attr [119] (EUnscoped v (7, 1))]; sh_loc := (7, 0) |} in
+  let fl := {| f_globals := [{| gl_name := gname; gl_quant := QOne; gl_default := None; gl_loc := (0, 0) |}];
+               f_inherited := []; f_shorthands := [sh]; f_stanzas := [st] |} in
+  let regexes := [tt] in
+  let find := fun (_ : unit) (s : str) => match s with [] => None | _ :: _ => Some [Some (0, 1)] end in
+  let supplied := [[(gname, VGraph 0)]] in
+  let g0 := [new_gnode] in
+  let matches := [[[(0, [0])]]] in
+  WellFormedFile regexes fl /\ GoodMatches (syn_ok t) fl matches /\ GoodGlobals (syn_ok t) g0 supplied /\
+  exists s p, run_strict t fl config0 supplied None regexes find (stdlib_call (fun _ _ _ => None) t) 50 matches g0 = Ok (s, p) /\
+              length (s_graph s) = 2%nat.
+Proof.
+  cbv zeta. split; [reflexivity|]. split; [|split].
+  - split; [|exact I]. constructor; [|constructor]. split; [discriminate|]. split; [reflexivity|]. repeat constructor.
+  - repeat constructor.
+  - eexists. eexists. split; [vm_compute; reflexivity|]. reflexivity.
+Qed.
+
+(* LAZY INTERPRETER: no panic site is reachable, in the execution phase or in the evaluation phase.  Same hypotheses,
+   with GoodMatchesLazy in place of GoodMatches: each (stanza index, match) pair of the merged query has a stanza
+   index in range (P_stanza_index); captures are looked up by their index in the FILE query (st_full_file_idx, the
+   file_idx of capture expressions).  The proof maintains in addition: every store location inside a lazy value kept
+   anywhere in the state (locals, thunks, scoped-variable cells, recorded statements) is an index of the store, which
+   only grows (P_store_index); the collected scoped definitions and their debug records have the same keys
+   (P_unreachable_scoped). *)
+Theorem lazy_exec_no_panic : forall {rx : Type} (sok : N -> Prop) t fl cfg supplied budget (regexes : list rx) find call fuel matches g0,
+  WellFormedFile regexes fl -> GoodMatchesLazy sok fl matches -> GoodGlobals sok g0 supplied -> GoodCall sok call ->
+  forall x, run_lazy t fl cfg supplied budget regexes find call fuel matches g0 <> Panic x.
+Proof. intros rx. exact (@exec_no_panic_lazy rx). Qed.
+
+Example c05_lazy_nonvacuous :
+  let x := [120] in let y := [121] in let k := [107] in let c := [99] in let gname := [103] in let shn := [115] in let v := [118] in
+  let nd := {| tn_kind := [109]; tn_named := true; tn_error := false; tn_missing := false; tn_parent := None;
+               tn_children := []; tn_start := (0, 0); tn_end := (0, 2); tn_span := (0, 2) |} in
+  let t := {| t_src := [97; 98]; t_nodes := [nd] |} in
+  let cap := ECapture c QOne 0 0 (0, 0) in
+  let st := {| st_stmts := [SNode (VarU x (1, 2)) x (1, 0);
+                            SAttrNode (EUnscoped x (2, 0)) [Attr k (ECall Lit.node_type [cap]); Attr shn (EInt 7)] (2, 0);
+                            SScan (ECall Lit.source_text [cap]) [(0, [SPrint [ERegexCap 0] (3, 1)], (3, 1))] (3, 0);
+                            SFor y (4, 0) (EList [EUnscoped gname (4, 1); EUnscoped x (4, 2)])
+                                 [SEdge (EUnscoped x (5, 0)) (EUnscoped y (5, 1)) (5, 0)] (4, 0);
+                            SLet (VarS cap v (6, 0)) (EUnscoped x (6, 1)) (6, 0);
+                            SAttrNode (EScoped cap v (7, 0)) [Attr [97] (EInt 1)] (7, 0)];
+               st_full_stanza_idx := 0; st_full_file_idx := 0; st_start := (0, 0) |} in
+  let sh := {| sh_name := shn; sh_var := v; sh_vloc := (7, 0); sh_attrs := [Attr [119] (EUnscoped v (7, 1))]; sh_loc := (7, 0) |} in
+  let fl := {| f_globals := [{| gl_name := gname; gl_quant := QOne; gl_default := None; gl_loc := (0, 0) |}];
+               f_inherited := []; f_shorthands := [sh]; f_stanzas := [st] |} in
+  let regexes := [tt] in
+  let find := fun (_ : unit) (s : str) => match s with [] => None | _ :: _ => Some [Some (0, 1)] end in
+  let supplied := [[(gname, VGraph 0)]] in
+  let g0 := [new_gnode] in
+  let matches := [(0, [(0, [0])])] in
+  WellFormedFile regexes fl /\ GoodMatchesLazy (syn_ok t) fl matches /\ GoodGlobals (syn_ok t) g0 supplied /\
+  exists s p, run_lazy t fl config0 supplied None regexes find (stdlib_call (fun _ _ _ => None) t) 50 matches g0 = Ok (s, p) /\
+              length (l_graph s) = 2%nat /\ (0 < length (l_store s))%nat.
+Proof.
+  cbv zeta. split; [reflexivity|]. split; [|split].
+  - constructor; [|constructor]. split; [discriminate|]. split; [reflexivity|]. repeat constructor.
+  - repeat constructor.
+  - eexists. eexists. split; [vm_compute; reflexivity|]. split; [reflexivity|]. cbn [l_store length]. lia.
+Qed.
 
 Example c05_nonvacuous :
   arm_select (fun (r : N) (s : str) => if N.eqb r 0 then Some [Some (1, 3)] else None) [0; 1] [97; 98; 99] = ASelArm 0 [Some (1, 3)].
